@@ -14,17 +14,27 @@ WHAT = {
     "C01-5": ("receiveMsg_Drive calls drive() directly when the start time has passed, `start_driving` stays set: stale CompleteCurrentTask honoured at the join point, periodic wake-up mistaken for the start signal, drive() blocks in executor_future.result()", "strengthened: blocking waits on a running executor are simulated / diagnosed (before: the check hung); one pool thread per worker"),
     "C02-1": ("over-committed client indices wrap at the parallel's own client count instead of max_clients: ragged matrix when another element is wider", ""),
     "C02-2": ("workers per host taken from the first host: a later host with fewer cores gets more workers than cores", ""),
+    "C02-3": ("calculate_worker_assignments gives every host but the last ceil(n/hosts) clients and the last 'the remainder': with >= 3 hosts client ids >= n are handed out", ''),
+    "C02-4": ('Driver.start_benchmark resets ClientAllocations per host instead of per worker: the k-th worker of a host also gets the rows of the earlier workers', "caught by C01's race simulation; C02 strengthening requested (real start_benchmark leg)"),
     "C03-1": ("offset table built with character counts instead of tell(): multi-byte corpora > 50,000 lines seek too early", ""),
     "C03-2": ("conflict id drawn with inclusive upper bound: may reference a not-yet-emitted id", ""),
     "C03-3": ("number_of_bulks counts lines instead of documents: with action-and-meta-data lines a group ingests about 2p% instead of p%", ""),
+    "C03-4": ("schedule_for partitions the corpus by the parallel element's total clients instead of the task's: a bulk task next to sibling tasks skips partitions", ''),
+    "C03-5": ('ingest-percentage limit computed as ceil(all_bulks*(p/100)): float rounding issues one bulk too many for ~40 of 30,000 (bulks, percentage) pairs', 'strengthening requested: exact ceil over the (bulks, percentage) table'),
     "C04-1": ("`throughput_throttled = rest > 0`: latency of a lagging throttled client falls back to service time", ""),
     "C04-2": ("absolute time taken before the throttling wait: the sample no longer carries its issue time", ""),
+    "C04-3": ('throttle wait only `if rest > 0.001`: a request can go out up to 1 ms before its scheduled time', 'strengthening requested: sub-millisecond remainders in the time alphabet'),
+    "C04-4": ('AsyncIoAdapter builds AsyncExecutor with global_client_index instead of client_id: samples name a client that did not run the request (over-committed parallel)', 'caught by C07 (`FinalRecords`: client id in the stored records) after the harness observes the executing client at the wire; C04 strengthening requested'),
     "C05-1": ("UnitAwareScheduler: `weight = 1` slipped under `if self.first_request`: pacing w*C/T instead of C/T from the third request", ""),
     "C05-2": ("loop-control timer restarted inside the schedule generator (after the ramp-up sleep)", ""),
+    "C05-3": ('Allocator passes total_clients=sub_task.clients: ramp-up delays in a parallel with >= 2 sub-tasks use the wrong divisor', 'strengthening requested: allocations from the real Allocator with ramp-up'),
+    "C05-4": ("requires_time_period_schedule tests the runner's `completed` before explicit iterations: iterations ignored for runners exposing completed/percent_completed", 'strengthening requested: runner objects with completed/percent_completed'),
     "C06-1": ("update_interval without max(): elapsed time goes backwards for out-of-order arrival", ""),
     "C06-2": ("tuple helper uses the sample's own type instead of the sticky task type", ""),
     "C06-3": ("finish_bucket no longer resets `unprocessed` (sibling of the repaired defect)", ""),
     "C06-4": ("`if first_sample.throughput:` - a runner throughput of 0 is treated as none", "strengthened: model and drivers distinguish throughput 0 from None"),
+    "C06-5": ('TaskStats created from the first sample in ARRIVAL order instead of the earliest: out-of-order first batch shifts start time and sample type', ''),
+    "C06-6": ('calculate() deletes the TaskStats of tasks absent from the current batch: counts are forgotten while the task is still running', 'check fixed: violations reproduced before a failing machinery self-test are reported (before: exit 2 hid 265 violations)'),
     "C07-1": ("join-point flush guarded by executor_future (never true): a sample added between send_samples() and done() is lost", "strengthened: worker wake-up split at the executor preemption point (WWakeupA / executor steps / WWakeupB) in model and harness"),
     "C07-2": ("periodic wake-up ships samples only while busy", "superseded: led to the OverPlain scenarios and the genuine fix 328e366, after which the change no longer breaks the property"),
     "C07-3": ("SamplePostprocessor writes latency / processing_time only `if sample.latency:`: a timing of exactly 0.0 loses its record", ""),
@@ -33,6 +43,8 @@ WHAT = {
     "C08-1": ("throughput median through a helper whose sample_type defaults to None: warm-up samples shift the median", ""),
     "C08-2": ("GlobalStats.metrics(task) matches task OR operation name: a task gets another task's metrics when names collide", "strengthened: colliding task/operation names"),
     "C08-3": ("percentile rank rounded to 2 decimals: p99.9/p99.99 deviate from the linear interpolation for >= 1000 samples", "strengthened: exact interpolation promoted from L2 to L1"),
+    "C08-4": ('Race.as_dict keeps results only `if v`: zero-valued global metrics vanish on the round trip', ''),
+    "C08-5": ('InMemoryMetricsStore.bulk_add replaces the docs instead of extending them: all but the last hand-over lost at race control', 'caught by C07 (`AllSamplesAtRaceControl`); C08 strengthening requested (store filled by several bulk_add hand-overs)'),
     "C09-1": ("worker no longer checks the executor's outcome between task rows of an over-committed parallel: the failed future is overwritten", "strengthened: OverPlain scenarios in the fault families"),
     "C09-2": ("race control releases the driver before storing the final samples: a failure in the final hand-over becomes a dead letter", ""),
     "C09-3": ("De Morgan slip `not (cancelled and error)`: results stored after a failure or a cancellation alone", ""),
@@ -40,27 +52,49 @@ WHAT = {
     "C09-5": ("early returns in execute_single: `on-error: abort` no longer sees an unsuccessful RESULT (success: False), only raised errors", "strengthened: request fault variant `unsuccessful` (runner returns success False under on-error=abort)"),
     "C10-1": ("mixing checks by truthiness: warmup-iterations 0 with time-period is loaded", ""),
     "C10-2": ("nested rally.collect resolved against the track root instead of the fragment's directory", "strengthened: two-level includes with the outer part in a sub-directory"),
+    "C10-3": ('duplicate-name check fused into the schedule loop with sets: duplicates inside ONE parallel element are loaded', ''),
+    "C10-4": ('corpora: with several indices a document set without target-index silently gets the first index', 'strengthening requested: TargetIndexAsWritten at L1'),
     "C11-1": ("emptied parallel dropped only if `task.clients == 0`: one with an explicit clients value stays", ""),
     "C11-2": ("single string tag no longer wrapped in a list: tag filter does a substring test", "strengthened: single-string tags and tag alphabets with substrings; projection mismatch is L1/drift instead of a machinery failure"),
+    "C11-3": ('removal of an emptied parallel guarded by `task not in tasks_to_remove` (== compares task lists): a second emptied parallel stays', ''),
+    "C11-4": ('Allocator.clients = max(..., default=0): an empty filtered schedule gives a 0-row matrix and start_benchmark fails', ''),
     "C12-1": ("MechanicActor children sized by distinct IPs instead of (ip, port) pairs", ""),
     "C12-2": ("departures of daemons 'not awaited' ignored: join-then-leave is never reported", ""),
     "C12-3": ("ProcessLauncher.stop skips storing system metrics for a node whose process is already gone", "strengthened: real ProcessLauncher.stop with node-process conditions (early / late / stubborn)"),
+    "C12-4": ('MechanicActor.externally_provisioned only ever set to True: a provisioned cluster after an external one on the same actor gets no StopNodes', 'strengthening requested: multi-lifecycle histories on one MechanicActor'),
+    "C12-5": ('StopNodes no longer clears mechanic/nodes: the following ActorExitRequest stops every node a second time (two cooperating sites)', ''),
     "C13-1": ("config-base variables merged with setdefault: the first car's base wins over a later car's base", ""),
     "C13-2": ("cleanup skips data paths that string-prefix-match the install dir: a sibling named after the ES home survives", "strengthened: name-prefix sibling data paths in the universe"),
+    "C13-3": ("ElasticsearchInstaller.variables updates car.variables in place: node defaults leak into the shared Car, node 2 gets node 1's data paths", 'strengthening requested: several nodes provisioned from one Car object'),
+    "C13-4": ('trailing newline of rendered templates no longer forced: a second base providing the same file is glued to the last line', ''),
     "C14-1": ("offset table built with encoded line lengths: CRLF corpora >= 50,000 lines get wrong offsets", "strengthened: CRLF variant of the large document"),
     "C14-2": ("_download_http prefers the server's Content-Length over the declared size: a wrong-sized download is renamed to the final name", ""),
+    "C14-3": ("offset table not removed before the line-count DataError: a plain retry finds a 'valid' table and accepts the wrong corpus", 'strengthening requested: first run ending with the explicit line-count error'),
+    "C14-4": ('FileOffsetTable.is_valid compares mtimes the wrong way round: a stale table survives a replaced document file', ''),
     "C15-1": ("walrus unrolled into a truthiness test: a `.0` minor branch is skipped again", ""),
     "C15-2": ("remote branch name cut at the last slash: origin/backport/7.9 becomes 7.9", "strengthened: git leg uses path-like unrelated branch names whose last component looks like the wanted version"),
     "C15-3": ("_latest_major ignores patch/suffix branches: master chosen although a newer major exists as patch branch", ""),
+    "C15-4": ('best_match: `major > latest` became `>=`: master chosen although only later minors of the newest major exist', ''),
+    "C15-5": ('RallyRepository.update: checkout moved inside the try that swallows SupplyError: a failing checkout leaves the repository on the previous branch', 'strengthened: working copy with uncommitted changes (`UsesBestOrError`)'),
     "C16-1": ("except clauses merged: other TransportErrors are swallowed, slept on and retried", ""),
+    "C16-2": ("Retry caches its evaluated parameters on the (shared, registered-once) instance: the first call's settings govern all later calls", ''),
+    "C16-3": ('explicit `retry-until-success: false` ignored when the runner was constructed with retry_until_success=True', ''),
     "C17-1": ("all 5xx status codes retryable", ""),
+    "C17-2": ("retry branch logs e.body.get('error',{}).get('reason'): a 429/5xx with a str body or a string `error` raises AttributeError instead of retrying", 'strengthening requested: error body shapes in the fault alphabet'),
+    "C17-3": ("bulk_index passes a lazy generator into guarded(): retries send nothing and 'succeed'", ''),
     "C18-1": ("__exit__ propagates the child's timing only when no exception is in flight: failed sub-requests are not spanned", "strengthened: exceptional exits of nested contexts / failing sub-requests (which also exposed the genuine defect fixed by f822262)"),
+    "C18-2": ("run_stream: `pending, streams = streams, []` before awaiting a mid-list group: a failing stream's siblings are neither cancelled nor awaited", ''),
+    "C18-3": ("one RequestTiming per operation type kept on the shared Composite runner: overlapping sub-requests overwrite each other's context", ''),
     "C19-1": ("flat-object member key taken as the last path segment: dotted composite source names collapse", "strengthened: dotted member names inside requested flat objects"),
     "C19-2": ("fast-path error count = number of DISTINCT (status, reason) pairs", ""),
     "C19-3": ("requested object never left at end_map: later scalars pollute the extracted after_key", ""),
+    "C19-4": ('simple_stats no longer counts items with _shards.failed > 0 as errors (with errors: true)', ''),
+    "C19-5": ('SearchAfterExtractor uses findall(...)[-1] over the whole response: a _source field named sort/resort swallows the real sort array', ''),
     "C20-1": ("transform throughput direction flag lost in a de-duplication refactoring", ""),
     "C20-2": ("threshold computed before the percentage branch: +0.00% coloured", ""),
     "C20-3": ("`n / d` instead of `n / abs(d)`: the repaired negative-baseline defect re-introduced", ""),
+    "C20-4": ('ingest-pipeline comparison lines guarded by truthiness: a baseline value of 0 drops the line', ''),
+    "C20-5": ('neutral colour hoisted above the plain/rich switch: neutral cells reach the report file with colour codes', ''),
 }
 
 
